@@ -68,11 +68,11 @@ where
         return Ok(());
     }
     // table-driven paths, tables from the crate's own precomputation
-    let mut pre3 = vec![G::Aff::zero(); 3];
+    let mut pre3 = scratch_table::<G>(3);
     cr("precomp_3", || G::op_precomp_3(&pa, &mut pre3))?;
     let t = cr("mul_precomp_3", || G::op_mul_precomp_3(&pa, repr(&k), &pre3))?;
     expect::<G>("mul_precomp_3", &t, &want, &k)?;
-    let mut pre256 = vec![G::Aff::zero(); 256];
+    let mut pre256 = scratch_table::<G>(256);
     cr("precomp_256", || G::op_precomp_256(&pa, &mut pre256))?;
     let t = cr("mul_precomp_256", || G::op_mul_precomp_256(&pa, repr(&k), &pre256))?;
     expect::<G>("mul_precomp_256", &t, &want, &k)?;
@@ -393,9 +393,9 @@ where
     let curve = G::curve();
     let pm = G::pool().sub[3].1.clone();
     let pa = aff_c::<G>(&pm);
-    let mut pre3 = vec![G::Aff::zero(); 3];
+    let mut pre3 = scratch_table::<G>(3);
     G::op_precomp_3(&pa, &mut pre3);
-    let mut pre256 = vec![G::Aff::zero(); 256];
+    let mut pre256 = scratch_table::<G>(256);
     G::op_precomp_256(&pa, &mut pre256);
     let mut want = pm.clone();
     for i in 0..256usize {
@@ -422,9 +422,9 @@ fn replay_single_bits(v: &Value) -> Result<(), String> {
     {
         let pm = G::pool().sub[3].1.clone();
         let pa = aff_c::<G>(&pm);
-        let mut pre3 = vec![G::Aff::zero(); 3];
+        let mut pre3 = scratch_table::<G>(3);
         G::op_precomp_3(&pa, &mut pre3);
-        let mut pre256 = vec![G::Aff::zero(); 256];
+        let mut pre256 = scratch_table::<G>(256);
         G::op_precomp_256(&pa, &mut pre256);
         let want = G::curve().mul(&(Z::one() << i), &pm);
         single_bit_case::<G>(i, &pm, &want, &pre3, &pre256)
